@@ -1,6 +1,7 @@
 use crate::ScopeRef;
 use crate::css::CssString;
 use crate::error::{Error, ResultPos};
+use crate::output::Style;
 use crate::sass::Value;
 use crate::value::Quotes;
 use std::fmt::Write;
@@ -53,6 +54,11 @@ impl SassString {
     /// All interpolated values are interpolated in the given `scope`.
     pub fn evaluate(&self, scope: ScopeRef) -> Result<CssString, Error> {
         let mut result = String::new();
+        // The text of an interpolated value is the same in any style.
+        let mut format = scope.get_format();
+        if format.is_compressed() {
+            format.style = Style::Expanded;
+        }
         for part in &self.parts {
             match part {
                 StringPart::Interpolation(v) => {
@@ -61,11 +67,11 @@ impl SassString {
                         let v = v
                             .valid_css()
                             .no_pos()? // TODO: Get the position.
-                            .format(scope.get_format())
+                            .format(format)
                             .to_string();
                         result.push_str(&v);
                     } else {
-                        let v = v.format(scope.get_format()).to_string();
+                        let v = v.format(format).to_string();
                         let mut carry_space = false;
                         for c in v.chars() {
                             if carry_space {
